@@ -37,7 +37,8 @@ _clean = st.one_of(
 @st.composite
 def _inject(draw):
     base = draw(_clean)
-    ctl = draw(st.sampled_from(['\r', '\n', '\0', '\r\n', '\n\n', '\r\nSet-Cookie: a=b', '\n ', '\r\n\r\n<html>']))
+    ctl = draw(st.sampled_from(['\r', '\n', '\0', '\r\n', '\n\n', '\r\nSet-Cookie: a=b', '\n ', '\r\n\r\n<html>', '\r\n ', '\r\n\t', '\r\n  folded', '\r\n \r\n\tX: y',
+                                   '\n\t', '\r ', '\0 ', ' \r\n ', '\x0b\r\n ', '\r\n\x0b']))
     pos = draw(st.sampled_from(['start', 'mid', 'end', 'end', 'only']))
     if pos == 'only':
         return ctl
@@ -365,7 +366,8 @@ def run(ctx):
         ctx.count('corpus')
     # small exhaustive grid: every entry point x every injection shape x position in a multi-value header
     if ctx.shard == 0:
-        shapes = ['a\rb', 'a\nb', 'a\0b', '\rab', '\nab', '\0ab', 'ab\r', 'ab\n', 'ab\0', 'ab\r\n', 'ab\n\n', '\n', '\r', '\0', 'é\n', 'ab\n ']
+        shapes = ['a\rb', 'a\nb', 'a\0b', '\rab', '\nab', '\0ab', 'ab\r', 'ab\n', 'ab\0', 'ab\r\n', 'ab\n\n', '\n', '\r', '\0', 'é\n', 'ab\n ',
+                  'a,\r\n b', 'a;\r\n\tb=2', 'x\r\n \r\n\tSet-Cookie: a=b', '\r\n ', 'a\r\n ', 'a\n b', 'a\r b']
         for e in ['setitem', 'append', 'setdefault', 'content_type', 'content_length', 'expires', 'ctor_dict', 'ctor_pairs', 'ctor_kw']:
             for s in shapes:
                 for pre in (0, 1, 2):
